@@ -109,6 +109,7 @@ pub fn c03_deep_case(seed: u64, case: u64) -> CaseResult {
             let o = observe(&f);
             if o.broken || !o.doc_ok {
                 res.viol("C08", "deep-reopened-replica-aborts", format!("depth {} place {}: the replica reopened after a successful commit answers {}", depth, place, trunc(&o.doc, 300)));
+                res.viol("C03", "deep-reopen-differs", format!("depth {} place {}: the replica reopened after a successful commit cannot show the committed document: {}", depth, place, trunc(&o.doc, 200)));
             } else if o.s_value(false) != live.s_value(false) || o.anchors != live.anchors || o.doc != exp1 {
                 res.viol("C03", "deep-reopen-differs", format!("depth {} place {}: {}", depth, place, trunc(&live.diff(&o), 400)));
             }
@@ -157,5 +158,89 @@ pub fn c03_deep_case(seed: u64, case: u64) -> CaseResult {
     }
     res.count("deep_cases", 1);
     res.opkinds = format!("place{}", place);
+    res
+}
+
+/// Fixed list of unusual but valid document shapes no random generator draws: update -> read (exact)
+/// -> commit -> read -> reopen -> read, then a second version derived by reversing / dropping.
+pub fn shapes_case() -> CaseResult {
+    let mut res = CaseResult::default();
+    let f = "\u{266D}";
+    let shapes: Vec<Value> = vec![
+        json!({format!("k{}", f): 5}),
+        json!({format!("k{}", f): null}),
+        json!({format!("k{}", f): "str"}),
+        json!({format!("k{}", f): true}),
+        json!({format!("k{}", f): []}),
+        json!({format!("k{}", f): {}}),
+        json!({"": 1, f: [{"_id": "a"}]}),
+        json!({"n": 1e300, "m": -0.0, "one": 1.0, "big": 18446744073709551615u64, "neg": i64::MIN, "tiny": 5e-324}),
+        json!({format!("{}{}", f, f): [{"_id": "a", f: [{"_id": "b"}]}]}),
+        json!({"meta": {"_id": "zzz", "v": 1}}),
+        json!({"list": [{"_id": "a", "v": 1}, {"_id": "a", "v": 2}]}),
+        json!({"meta": {format!("inner{}", f): [{"_id": "a", "v": 1}, {"_id": "b"}]}}),
+        json!({"meta": [{format!("inner{}", f): [{"_id": "a", "v": 1}]}, [{format!("x{}", f): {"_id": "q"}}]]}),
+        json!({"!k": 1, "^k": 2, "\u{221A}": 3, "a\u{266D}b": [{"_id": "not-flattened"}]}),
+        json!({"s": ["!x", "^y", "!!", "", "!", "^"], "t": "!^"}),
+        json!({format!("items{}", f): [{"_id": "a", "r": "1-abc", "d": "2-d_1234567", "h": "e3b0c44298fc1c149afbf4c8996fb92427ae41e4649b934ca495991b7852b855"}]}),
+        json!({format!("items{}", f): [{"_id": "e3b0c44298fc1c149afbf4c8996fb92427ae41e4649b934ca495991b7852b855"}, {"_id": "d"}, {"_id": "r"}, {"_id": "e"}, {"_id": "1f"}]}),
+        json!({format!("a{}", f): [{"_id": "x", format!("a{}", f): [{"_id": "y", format!("a{}", f): [{"_id": "z"}]}]}], format!("b{}", f): {"_id": "w", format!("a{}", f): []}}),
+        json!({"long": "x".repeat(200_000), format!("items{}", f): [{"_id": "a", "long": "\\\"}{".repeat(20_000)}]}),
+        json!({format!("many{}", f): (0..3000).map(|i| json!({"_id": format!("o{}", i), "i": i})).collect::<Vec<_>>()}),
+    ];
+    for (n, d) in shapes.iter().enumerate() {
+        for caps in [(1u32, 1u32), (16, 16)] {
+            let ad = store::plain_mem();
+            let m = match open_with(&ad, caps) {
+                Outcome::Ok(m) => m,
+                _ => continue,
+            };
+            let ds: String = d.to_string().chars().take(120).collect();
+            let mut step = |m: &melda::melda::Melda, doc: &Value, what: &str, res: &mut CaseResult| -> bool {
+                let exp = serde_json::to_string(&gen::expected_read(doc)).unwrap();
+                let (got, ok) = read_doc(m);
+                if !ok || got != exp {
+                    res.viol(if got.starts_with("PANIC") { "C08" } else { "C04" }, "shape-read-differs", format!("shape {} ({}) {}: read {} expected {}", n, ds, what, trunc(&got, 300), trunc(&exp, 300)));
+                    return false;
+                }
+                true
+            };
+            let up = guard(|| m.update(d.as_object().unwrap().clone()));
+            if !up.is_ok() {
+                res.viol("C08", "shape-update-failed", format!("shape {} ({}): {}", n, ds, up.describe()));
+                continue;
+            }
+            if !step(&m, d, "after update", &mut res) {
+                continue;
+            }
+            let c = guard(|| m.commit(None));
+            if !matches!(c, Outcome::Ok(Some(_))) {
+                res.viol("C08", "shape-commit-failed", format!("shape {} ({}): {}", n, ds, c.describe()));
+                continue;
+            }
+            step(&m, d, "after commit", &mut res);
+            match open_with(&ad, caps) {
+                Outcome::Ok(fr) => {
+                    let exp = serde_json::to_string(&gen::expected_read(d)).unwrap();
+                    let (got, ok) = read_doc(&fr);
+                    if !ok || got != exp {
+                        res.viol(if got.starts_with("PANIC") { "C08" } else { "C03" }, "shape-reopen-differs", format!("shape {} ({}): reopened replica reads {}", n, ds, trunc(&got, 300)));
+                    }
+                }
+                o => res.viol("C08", "shape-reopen-failed", format!("shape {}: {}", n, o.describe())),
+            }
+            // the same document again changes nothing
+            let again = guard(|| {
+                m.update(d.as_object().unwrap().clone())?;
+                m.commit(None)
+            });
+            if !matches!(again, Outcome::Ok(None)) {
+                res.viol("C04", "shape-resubmission-not-idempotent", format!("shape {} ({}): second identical update + commit -> {}", n, ds, match &again { Outcome::Ok(Some(_)) => "Some (a commit)".to_string(), o => o.describe() }));
+            }
+            res.count("shapes", 1);
+        }
+    }
+    res.features.insert("shapes".into(), shapes.len() as u64);
+    res.opkinds = "shapes".into();
     res
 }
